@@ -1,6 +1,48 @@
 import CkbVerif.Driver.Util
+import CkbVerif.Model.Reorg
+
+/-! Line-protocol driver for C12 (protocol: harness/n12/src/c12.rs). -/
 namespace CkbVerif.Driver.C12
-def main (_args : List String) : IO UInt32 := do
-  IO.eprintln "C12: model driver not implemented"
-  return 2
+open CkbVerif.Driver CkbVerif.Reorg
+
+structure DSt where
+  pool : List PEnt := []        -- reversed
+  att : List Tx := []           -- reversed
+  args : Args := ⟨[], [], [], [], [], []⟩
+
+def insertSorted (x : Nat × Nat) : List (Nat × Nat) → List (Nat × Nat)
+  | [] => [x]
+  | y :: ys => if x.1 < y.1 then x :: y :: ys else y :: insertSorted x ys
+
+def step (s : DSt) (ts : List String) : DSt × String :=
+  match ts with
+  | ["rpool"] => ({}, "ok")
+  | ["rent", id, st, sp, dp, hd, ds] =>
+    match parseNat? id, parseNat? st, parseNatList? sp, parseNatList? dp, parseNatList? hd, parseNatList? ds with
+    | some id, some st, some sp, some dp, some hd, some ds =>
+      ({ s with pool := ⟨id, st, sp, dp, hd, ds⟩ :: s.pool }, "ok")
+    | _, _, _, _, _, _ => (s, "bad-op")
+  | ["ratt", id, ins] =>
+    match parseNat? id, parseNatList? ins with
+    | some id, some ins => ({ s with att := ⟨id, ins⟩ :: s.att }, "ok")
+    | _, _ => (s, "bad-op")
+  | ["rargs", dh, dp, g, p] =>
+    match parseNatList? dh, parseNatList? dp, parseNatList? g, parseNatList? p with
+    | some dh, some dp, some g, some p =>
+      ({ s with args := ⟨[], dh, dp, g, p, []⟩ }, "ok")
+    | _, _, _, _ => (s, "bad-op")
+  | ["rafter", ex] =>
+    match parseNatList? ex with
+    | some ex =>
+      let a : Args := { s.args with attached := s.att.reverse, expired := ex }
+      let r := update s.pool.reverse a
+      let l := (r.map fun e => (e.id, e.status)).foldr insertSorted []
+      (s, if l.isEmpty then "-" else ",".intercalate (l.map fun x => s!"{x.1}:{x.2}"))
+    | none => (s, "bad-op")
+  | op :: _ =>
+    if ["cfg", "submit", "time", "mine", "fork"].contains op then (s, "ok") else (s, "bad-op")
+  | _ => (s, "bad-op")
+
+def main (_args : List String) : IO UInt32 := runLines ({} : DSt) step
+
 end CkbVerif.Driver.C12
